@@ -76,7 +76,7 @@ def main(chk, replay=None):
             continue
         cont, scf, ncurves, req = st['scn']
         exp = st['out']
-        x = W.fresh('array' if cont == 'array' else 'sample')
+        x = W.fresh(cont if cont in ('array', 'sample-dupname') else 'sample')
         before = fingerprint(x)
         sc_list = [curve(i + 1) for i in range(ncurves)]
         a_req, a_sc = render(req), render(scf)          # the caller's own argument objects
